@@ -2,4 +2,11 @@
 import AM.Base.Labels
 import AM.Base.Matcher
 import AM.Model.Route
+import AM.Model.Grouping
+import AM.Model.GroupMap
+import AM.Lemmas.GroupMapInv
+import AM.Lemmas.GroupMapStep
+import AM.Lemmas.GroupMapMain
 import AM.Props.C07
+import AM.Props.C06Conc
+import AM.Props.C06
